@@ -15,13 +15,21 @@
 (* the code before the repairs (empty mesh leaves the buffer untouched;    *)
 (* call_Fq pops the mode key from the caller's dictionary) as failing      *)
 (* controls.                                                               *)
+(*                                                                         *)
+(* The caller keeps what a call returned (variable `held`, tracked when    *)
+(* TrackHeld): a returned array must keep its value through every later    *)
+(* operation (HeldStable).  Returned arrays are copies; ReturnsView = TRUE *)
+(* (the kernel hands out a view of its reused result buffer) is a failing  *)
+(* control.                                                                *)
 (***************************************************************************)
 EXTENDS Naturals, Sequences, FiniteSets, TLC
 
 CONSTANTS Models, QSets, Requests, Slots, Wrappers, MaxOps,
           EmptyReq,     \* the request whose mesh has no point (num_eval = 0)
           ModeReq,      \* the request that carries radius_effective_mode in the dictionary
-          Variant       \* "fixed" | "asWritten"
+          Variant,      \* "fixed" | "asWritten"
+          TrackHeld,    \* follow the array the caller still holds from the last evaluating call
+          ReturnsView   \* failing control: Call returns a view of the kernel's result buffer
 
 VARIABLES kern,    \* [Slots -> [m, q, buf] | Dead]   buf: what the result buffer holds (a request or "garbage")
           loaded,  \* [Models -> BOOLEAN]  library currently dlopen'ed
@@ -29,11 +37,15 @@ VARIABLES kern,    \* [Slots -> [m, q, buf] | Dead]   buf: what the result buffe
           dm,      \* [Models \X QSets -> buf]  DirectModel calculators (each keeps one kernel and its buffer)
           dict,    \* [Requests -> BOOLEAN]  caller's dictionary for ModeReq still has its mode key
           ret,     \* last returned value: [val |-> <<m, q, r>> or "garbage", want |-> <<m, q, r>>]
+          held,    \* [val, src]: the array kept from the last evaluating call, as read when it was returned, and
+                   \* where its memory lives ("copy" or the kernel slot whose buffer it is a view of)
           nops
-vars == <<kern, loaded, wrap, dm, dict, ret, nops>>
+vars == <<kern, loaded, wrap, dm, dict, ret, held, nops>>
 
 Dead == [m |-> "none", q |-> "none", buf |-> <<"garbage">>]
 NoRet == [val |-> <<"none">>, want |-> <<"none">>]
+NoHeld == [val |-> <<"none">>, src |-> "copy"]
+Keep(val, src) == IF TrackHeld THEN held' = [val |-> val, src |-> src] ELSE UNCHANGED held
 
 Init == /\ kern = [s \in Slots |-> Dead]
         /\ loaded = [m \in Models |-> FALSE]
@@ -41,6 +53,7 @@ Init == /\ kern = [s \in Slots |-> Dead]
         /\ dm = [x \in Models \X QSets |-> <<"garbage">>]
         /\ dict = [r \in Requests |-> TRUE]
         /\ ret = NoRet
+        /\ held = NoHeld
         /\ nops = 0
 
 Tick == nops < MaxOps /\ nops' = nops + 1
@@ -50,7 +63,7 @@ MakeKernel(s, m, q) ==
     /\ kern' = [kern EXCEPT ![s] = [m |-> m, q |-> q, buf |-> <<"garbage">>]]   \* np.empty
     /\ loaded' = [loaded EXCEPT ![m] = TRUE]                                \* lazy dlopen
     /\ ret' = NoRet
-    /\ UNCHANGED <<wrap, dm, dict>>
+    /\ UNCHANGED <<wrap, dm, dict, held>>
 
 \* what a kernel call leaves in the buffer and returns
 Overwrites(r) == Variant = "fixed" \/ r # EmptyReq
@@ -64,6 +77,7 @@ Call(s, r, isFq) ==
            newbuf == IF Overwrites(r) THEN <<kern[s].m, kern[s].q, eff>> ELSE kern[s].buf
        IN /\ kern' = [kern EXCEPT ![s].buf = newbuf]
           /\ ret' = [val |-> newbuf, want |-> <<kern[s].m, kern[s].q, r>>]
+          /\ Keep(newbuf, IF ReturnsView THEN s ELSE "copy")
     /\ dict' = IF isFq /\ r = ModeReq /\ Variant = "asWritten" THEN [dict EXCEPT ![r] = FALSE] ELSE dict
     /\ UNCHANGED <<loaded, wrap, dm>>
 
@@ -71,7 +85,7 @@ ReleaseKernel(s) ==
     /\ Tick /\ kern[s].m # "none"
     /\ kern' = [kern EXCEPT ![s] = Dead]
     /\ ret' = NoRet
-    /\ UNCHANGED <<loaded, wrap, dm, dict>>
+    /\ UNCHANGED <<loaded, wrap, dm, dict, held>>
 
 \* KernelModel.release (dlclose); kernels made before keep their function pointers only if no
 \* other handle keeps the library mapped, so the histories release kernels first
@@ -81,25 +95,26 @@ ReleaseModel(m) ==
     /\ \A q \in QSets : dm[<<m, q>>] = <<"garbage">>       \* nor a DirectModel holding one of its kernels
     /\ loaded' = [loaded EXCEPT ![m] = FALSE]
     /\ ret' = NoRet
-    /\ UNCHANGED <<kern, wrap, dm, dict>>
+    /\ UNCHANGED <<kern, wrap, dm, dict, held>>
 
 SetParam(w, r) ==
     /\ Tick
     /\ wrap' = [wrap EXCEPT ![w].store = r]
     /\ ret' = NoRet
-    /\ UNCHANGED <<kern, loaded, dm, dict>>
+    /\ UNCHANGED <<kern, loaded, dm, dict, held>>
 \* evalDistribution builds a fresh kernel, evaluates, releases it
 Eval(w, q) ==
     /\ Tick
     /\ LET r == wrap[w].store IN
-       ret' = [val |-> IF Overwrites(r) THEN <<wrap[w].m, q, r>> ELSE <<"garbage">>, want |-> <<wrap[w].m, q, r>>]
+       /\ ret' = [val |-> IF Overwrites(r) THEN <<wrap[w].m, q, r>> ELSE <<"garbage">>, want |-> <<wrap[w].m, q, r>>]
+       /\ Keep(IF Overwrites(r) THEN <<wrap[w].m, q, r>> ELSE <<"garbage">>, "copy")
     \* (the wrapper class owns its own compiled model object: `loaded` is about core.load_model's)
     /\ UNCHANGED <<kern, loaded, wrap, dm, dict>>
 Clone(w, w2) ==
     /\ Tick /\ w # w2
     /\ wrap' = [wrap EXCEPT ![w2] = wrap[w]]
     /\ ret' = NoRet
-    /\ UNCHANGED <<kern, loaded, dm, dict>>
+    /\ UNCHANGED <<kern, loaded, dm, dict, held>>
 
 \* DirectModel(data(q), model)(**request): the calculator keeps its kernel between calls
 Direct(m, q, r) ==
@@ -107,6 +122,7 @@ Direct(m, q, r) ==
     /\ LET newbuf == IF Overwrites(r) THEN <<m, q, r>> ELSE dm[<<m, q>>] IN
        /\ dm' = [dm EXCEPT ![<<m, q>>] = newbuf]
        /\ ret' = [val |-> newbuf, want |-> <<m, q, r>>]
+       /\ Keep(newbuf, "copy")
     /\ loaded' = [loaded EXCEPT ![m] = TRUE]
     /\ UNCHANGED <<kern, wrap, dict>>
 \* core.load_model again: a new KernelModel object replaces the old one for later make_kernel calls
@@ -114,7 +130,7 @@ Reload(m) ==
     /\ Tick
     /\ loaded' = [loaded EXCEPT ![m] = FALSE]      \* the new object opens its library lazily
     /\ ret' = NoRet
-    /\ UNCHANGED <<kern, wrap, dm, dict>>
+    /\ UNCHANGED <<kern, wrap, dm, dict, held>>
 
 Next == \/ \E s \in Slots, m \in Models, q \in QSets : MakeKernel(s, m, q)
         \/ \E m \in Models, q \in QSets, r \in Requests : Direct(m, q, r)
@@ -130,4 +146,6 @@ Spec == Init /\ [][Next]_vars
 \* ---- properties (C11)
 Purity == ret # NoRet => ret.val = ret.want
 ArgsUntouched == \A r \in Requests : dict[r]
+\* what the caller keeps from an earlier call still reads as it did when it was returned
+HeldStable == held.src \in Slots => kern[held.src].buf = held.val
 =============================================================================
